@@ -887,10 +887,11 @@ class PresentationContextItemAC(PDUItem):
     @property
     def item_length(self) -> int:
         """Return the item's *Item Length* field value as :class:`int`."""
-        if self.transfer_syntax_sub_item:
-            return 4 + len(self.transfer_syntax_sub_item[0])
+        length = 4
+        for item in self.transfer_syntax_sub_item:
+            length += len(item)
 
-        return 4
+        return length
 
     @property
     def result(self) -> int | None:
